@@ -68,6 +68,9 @@ open_("C06", "D9", "C06/stdout@--html-path status", [],
 open_("C16", "D38", "C16/whitespace-reformat-changed-author@large", [],
       "input: a 3000-line file (about 55 KiB, every line attributed to one AI session) converted from LF to CRLF line endings by a person => only 2864 of 3000 lines keep their author (and for multibyte content some returned ranges do not sit on character boundaries): the large-input path of update_attributions is not conservative for whitespace-only reformats",
       "c16.crlf_flip_of_large_file", ["tracker_large_inputs"], affects=[])
+open_("C16", "D51", "C16/whitespace-reformat-changed-author@unterminated-quote", [],
+      "input: line 1 (session C) contains a double quote that is never closed on the line (`# note \"unterminated \\`, likewise `\"é\\\"` whose closing quote is escaped), line 2 belongs to session A; the file is converted from LF to CRLF (or re-indented) by C => line 2 is re-attributed to C (the tokenizer lexes the unterminated literal across the line break, so a whitespace-only change falls inside a non-whitespace token)",
+      "c16.eol_flip_after_unterminated_quote", ["tracker_unterminated_quote"], affects=[])
 open_("C16", "D39", "C16/unchanged-line-changed-author@line2", [],
       "input: old text `++ tok396252_cc v587` (one AI line of session C, no final newline); session A inserts one line before and one line after it => the untouched line 2 is re-attributed to A (without a final newline the unchanged last line is not matched as equal and the token diff hands it to the editor; same root as D17)",
       "c16.insertions_around_last_line_without_newline", ["tracker_noeol_append"], affects=[])
@@ -124,6 +127,7 @@ fixed("C18", "D48", "^fix: alias tokenizer keeps empty quoted", "alias.zz=\"log 
 fixed("C12", "D46", "^fix: notes search pins --no-color", "with color.ui=always (or color.grep=always) a rebase that takes the full replay (upstream changed the same file above the AI lines) wrote notes listing the session but with an empty prompts object: grep_ai_notes parsed coloured `git grep` output and found nothing (hash without prompt record; result depends on git configuration)", "c12.color_ui_always_hides_prompt_records_in_rebased_notes")
 fixed("C03", "D47", "^fix: blaming an empty commit range", "main holds S1's lines 6-7 right below a person's line 5; on a branch the person (no agent) inserts a token into line 5 and deletes line 4; `git merge --squash br`; commit => the person's line (now line 4) was committed as S1's: the target side was blamed over the empty range X..X, for which git silently blames the work tree, so S1's line numbers were off by the lines removed above them", "c03.squash_person_modifies_line_above_ai_block")
 fixed("C03", "D50", "^fix: a line rewritten on the merged side", "main holds session S2's lines 4-5 of f.txt (`# tokA ..`, `tokB ..`); on a branch session S1 replaces them by three lines, one of which also starts with `# `; `git merge --squash br`; commit => S1's line 5 was committed as S2's: on the favoured (target) side of merge_attributions_favoring_first the `# ` left over from S2's old line owned the rewritten line (placeholder author had the same timestamp) and outranked the branch side", "c03.squash_other_session_replaces_lines_with_shared_prefix")
+fixed("C17", "D52", "^fix: file names that start with a double quote", "a tracked file whose name begins and ends with a double quote and contains no whitespace (`\"x\"`, `\"\"`) gets an AI line: the path line was written unquoted, every reader strips one quote from each end of a line that starts with a quote, and the note read back listed another file name (serialize -> parse was not the identity; the AI line was reported human)", "c17.file_name_wrapped_in_double_quotes")
 open_("C11", "D8", "C11/not-serializable@overlapping-journal-windows", [],
       "schedule: two `git-ai checkpoint` processes (agents S1 on a.txt, S2 on b.txt) both pass their read of .git/ai/working_logs/<HEAD>/checkpoints.jsonl before either writes it back (append_checkpoint and post-commit read-modify-write the journal with no lock) => the later write drops the other record and that agent's line is committed as human; identified by call site: any non-serializable outcome whose schedule has two journal read..exit windows overlapping is counted as this finding",
       "c11.two_checkpoints_both_read_before_either_writes", [])
